@@ -81,7 +81,11 @@ def c12_spec(case, thickness, margin):
         dict(kind="energy", name="en", box=ib, reduce_volume=True),
         dict(kind="field", name="fld", box=ib, exact_interpolation=False),  # raw Yee samples of interior cells only
     ]
-    return dict(shape=[S] * 3, spacing=DX12, faces={k: "pml" for k in KINDS}, pml=thickness, steps=T12, courant=COURANT, sources=[src], detectors=dets)
+    spec = dict(shape=[S] * 3, spacing=DX12, faces={k: "pml" for k in KINDS}, pml=thickness, steps=T12, courant=COURANT, sources=[src], detectors=dets)
+    if case.get("kappa_end") and margin == 0:
+        # coordinate-stretched (kappa-graded) layers for the layered run; the reference keeps the default layers
+        spec["pml_args"] = dict(kappa_start=1.0, kappa_end=float(case["kappa_end"]))
+    return spec
 
 
 def rel_energy_difference(rec, ref):
